@@ -176,6 +176,8 @@ def canonical_template(name, prefix_len, gaps, target, kvs, msg_len, tail_len, t
     T.hole("g1", gaps.get("g1", 0), tmpl.WS_GRAMMAR)
     T.lit("(", mark="paren")
     T.hole("g2", gaps.get("g2", 0), tmpl.WS_GRAMMAR)
+    if gaps.get("cg2"):
+        T.lit(gaps["cg2"])
     T.mark("after_paren")
     if target is not None:
         T.lit("target:", mark="target")
@@ -185,6 +187,8 @@ def canonical_template(name, prefix_len, gaps, target, kvs, msg_len, tail_len, t
         T.lit('"')
         T.lit(",")
         T.hole("g4", gaps.get("g4", 1), tmpl.WS_GRAMMAR)
+        if gaps.get("cg4"):
+            T.lit(gaps["cg4"])
         T.mark("after_target")
     if kvs:
         T.mark("kvs")
@@ -195,6 +199,8 @@ def canonical_template(name, prefix_len, gaps, target, kvs, msg_len, tail_len, t
             T.lit(kv, mark="kv%d" % i)
         T.lit(";")
         T.hole("g5", gaps.get("g5", 1), tmpl.WS_GRAMMAR)
+    if gaps.get("cg5"):
+        T.lit(gaps["cg5"])
     T.lit('"', mark="quote")
     T.hole("msg", msg_len, MSG_CHARS, mark="msg")
     T.lit('"', mark="endquote")
@@ -224,7 +230,9 @@ def c10_templates(src, structured, quick=True, timeout=300):
     dirs = None
     names = ["info", "log::info"]
     shapes = []
-    gapsets = [{}, {"g0": 1, "g1": 1, "g2": 1}] if quick else [{}, {"g0": 1}, {"g1": 1}, {"g2": 2}, {"g0": 1, "g1": 1, "g2": 1, "g3": 2, "g4": 2, "g5": 2}]
+    gapsets = ([{}, {"g0": 1, "g1": 1, "g2": 1}, {"cg5": "/* c */ ", "cg4": "// t\n"}] if quick else
+               [{}, {"g0": 1}, {"g1": 1}, {"g2": 2}, {"g0": 1, "g1": 1, "g2": 1, "g3": 2, "g4": 2, "g5": 2},
+                {"cg5": "/* c */ ", "cg4": "// t\n"}, {"g2": 1, "cg5": "// c\n", "cg4": "/* t */"}])
     kvsets = ([[], ["k = 1"], ["k", "l:? = x"], ["e:?", "p:%"]] if quick else
               [[], ["k = 1"], ["k"], ["k:% = v", "l"], ["a = \"x;y\"", "b:debug = c"], ["a", "b", "c = 3"], ["e:?"],
                ["d:debug", "s:display", "x:err"], ["v:sval = w", "j:serde"]])
@@ -273,13 +281,14 @@ def c10_templates(src, structured, quick=True, timeout=300):
         if structured:
             # "as the first key-value": anywhere in the blank gap between the bracket (or the target's comma) and the
             # first existing argument is acceptable
-            lo_pos = (T.marks["target"] + 0 if False else None)
+            # between the opening bracket (or the comma that ends the target) and the first existing argument
+            # there is nothing but blanks and comments
+            first_arg = T.marks["kvs"] if kvs else T.marks["quote"]
             if target is not None:
-                lo_pos = T.marks["after_target"] - gaps.get("g4", 1)
-                hi_pos = T.marks["after_target"]
+                lo_pos = T.marks["after_target"] - gaps.get("g4", 1) - len(gaps.get("cg4", ""))
             else:
                 lo_pos = T.marks["paren"] + 1
-                hi_pos = T.marks["after_paren"]
+            hi_pos = first_arg
             placed = Or(*[e.pos.get(q, False) for q in range(lo_pos, hi_pos + 1)])
         # message starting with a valid token counts as referenced: exclude those instances (C12 handles them)
         if not structured:
